@@ -68,17 +68,6 @@ structure Gaussian (V S : Type) where
   loc : V
   scale : S
 
-/-- the gaussian head of `Policy.apply_actor`: sample when an rng is given, the mean otherwise -/
-def policyHead (sample : Gaussian V S → ρ → V) (exp : S → S) (logStd : S) (x_mean : V) (rng : Option ρ) : Option V :=
-  if pa_use_rng rng.isSome then
-    rng.map fun r => pa_return (pa_sampled (sample ⟨pa_loc x_mean, pa_scale exp logStd⟩ r))
-  else some (pa_return (pa_det x_mean))
-
-def applyActor (strIn : String → String → Bool) (dense : L → V → V) (interp : String → V → V)
-    (sample : Gaussian V S → ρ → V) (exp : S → S) (name : String) (p : ActorParams L S) (norm_obs : V) (rng : Option ρ) :
-    Option V :=
-  (policyMean strIn dense interp name p norm_obs).bind fun m => policyHead sample exp p.logStd m rng
-
 /-! ### `Actor.__call__` on the same parameter dict -/
 
 /-- one iteration of the Actor's hidden loop; the state carries the number of `nn.Dense` modules created so far, which is
@@ -94,11 +83,6 @@ def actorMean (dense : L → V → V) (interp : String → V → V) (name : Stri
     Option V :=
   (loopOpt (actorHiddenStep dense interp name p) (ac_range n).toNat (x, 0)).bind fun st =>
     (p.getDense (st.2 : Int)).map fun l => ac_mean (dense l st.1)
-
-/-- the distribution `pi` returned by the Actor -/
-def actorPi (dense : L → V → V) (interp : String → V → V) (exp : S → S) (name : String) (p : ActorParams L S) (n : Int)
-    (x : V) : Option (Gaussian V S) :=
-  (actorMean dense interp name p n x).map fun m => ac_return ⟨ac_loc m, ac_scale exp p.logStd⟩
 
 /-- what the network is meant to compute: a fold over the hidden layers, then the output layer -/
 def mlp (dense : L → V → V) (act : V → V) (hidden : List L) (out : L) (x : V) : V :=
@@ -126,6 +110,26 @@ structure NormState (α : Type) where
 
 section Scalar
 variable {α : Type} [Add α] [Sub α] [Mul α] [Div α] [Neg α] [NatCast α] [Max α] [Min α]
+
+/-! ### the gaussian head on both sides (`log_std` is a vector of scalars; `jnp.exp` acts leafwise) -/
+
+/-- the gaussian head of `Policy.apply_actor`: sample when an rng is given, the mean otherwise
+(`pi.sample(seed=None)` raises) -/
+def policyHead (sample : Gaussian V (List α) → ρ → V) (exp : α → α) (logStd : List α) (x_mean : V) (rng : Option ρ) :
+    Option V :=
+  if pa_use_rng rng.isSome then
+    rng.map fun r => pa_return (pa_sampled (sample ⟨pa_loc x_mean, logStd.map (pa_scale exp)⟩ r))
+  else some (pa_return (pa_det x_mean))
+
+def applyActor (strIn : String → String → Bool) (dense : L → V → V) (interp : String → V → V)
+    (sample : Gaussian V (List α) → ρ → V) (exp : α → α) (name : String) (p : ActorParams L (List α)) (norm_obs : V)
+    (rng : Option ρ) : Option V :=
+  (policyMean strIn dense interp name p norm_obs).bind fun m => policyHead sample exp p.logStd m rng
+
+/-- the distribution `pi` returned by the Actor -/
+def actorPi (dense : L → V → V) (interp : String → V → V) (exp : α → α) (name : String) (p : ActorParams L (List α))
+    (n : Int) (x : V) : Option (Gaussian V (List α)) :=
+  (actorMean dense interp name p n x).map fun m => ac_return ⟨ac_loc m, p.logStd.map (ac_scale exp)⟩
 
 /-- `NormalizeVec.normalize` on one leaf -/
 def normalizeScalar (sqrt : α → α) (mean var c : α) (clip submean : Bool) (x : α) : α :=
@@ -159,13 +163,13 @@ structure Policy (α L : Type) where
   hiddenActivation : String
 
 /-- the abstract environment of the network: Python substring test, flax Dense, activation names, distrax sampling,
-`jnp.exp` on the std vector, `jnp.sqrt`, `jnp.tanh`. -/
+`jnp.exp`, `jnp.sqrt`, `jnp.tanh`. -/
 structure Env (α L ρ : Type) where
   strIn : String → String → Bool
   dense : L → List α → List α
   interp : String → List α → List α
   sample : Gaussian (List α) (List α) → ρ → List α
-  exp : List α → List α
+  exp : α → α
   sqrt : α → α
   tanh : α → α
 
